@@ -123,7 +123,7 @@ def match_lexeme(T, pos, tok):
             if q == p:
                 raise Fail("lexeme_mismatch", "compound keyword %r: no separator at offset %d" % (val, p))
             p = q
-        if not bs.startswith(w, p):
+        if not (bs.startswith(w, p) or (len(words) > 1 and bs[p:p + len(w)].upper() == w.upper())):
             raise Fail("lexeme_mismatch", "token value %r is not the text at offset %d (%r)" % (val, p, bs[p:p + len(w) + 4]))
         p += len(w)
     return p
@@ -257,6 +257,12 @@ def tokerr_oracle(bs, r):
     anchors = [min(r["pos_index"], T.n)]
     if r.get("good_prefix", -1) >= 0:
         anchors.append(skip_sep(bs, r["good_prefix"]))
+        gl = r.get("good_last") or [0, 0]
+        if gl[0] >= 1:
+            # the unreadable element may begin where the last token of the readable prefix begins ('' then ', / then *)
+            o = T.offset_of(gl[0], gl[1])
+            if o is not None:
+                anchors.append(o)
     ok = False
     for a in anchors:
         if line == T.spec_line(a) and (not T.plain(line - 1) or col == T.spec_col_plain(a)):
@@ -331,6 +337,34 @@ def parse_oracle(bs, r, tok_offsets):
         fails.append(("parse_error_location", "syntax error %s located at %d:%d; the offending token (%s) begins at %d:%d"
                       % (e.get("code"), line, col, what, T.spec_line(exp_off), T.conv_col(exp_off))))
     return fails, info
+
+
+def split_mapping_failures(bs, r):
+    """position mapping of split compound keywords: each part's span must be that of its own word, parts ordered"""
+    T = Text(bs)
+    fails = []
+    pr = r.get("parse")
+    offs = true_offsets(bs, r)
+    if not pr or not pr.get("positions") or offs is None:
+        return fails
+    groups = {}
+    for i, q in enumerate(pr["positions"]):
+        groups.setdefault(q["oi"], []).append(q)
+    for oi, qs in groups.items():
+        if len(qs) < 2 or oi >= len(offs):
+            continue
+        parts = part_offsets(T, offs[oi][0], offs[oi][1], len(qs))
+        prev = None
+        for j, q in enumerate(qs):
+            if prev and (q["sl"], q["sc"]) < prev:
+                fails.append(("split_overlap", "part %d of split token %d starts at %d:%d before the end %d:%d of part %d" % (j, oi, q["sl"], q["sc"], prev[0], prev[1], j - 1)))
+            prev = (q["el"], q["ec"])
+            if parts:
+                sub = []
+                check_loc(T, "part %d of split token %d start" % (j, oi), q["sl"], q["sc"], parts[j][0], sub)
+                check_loc(T, "part %d of split token %d end" % (j, oi), q["el"], q["ec"], parts[j][1], sub)
+                fails += [("split_span", d) for _, d in sub]
+    return fails
 
 
 def true_offsets(bs, r):
@@ -524,7 +558,8 @@ def gen_malformed(rng, n):
     return out
 
 
-REPLACEMENTS = [b",", b")", b"(", b"FROM", b"SELECT", b"1", b"zz", b"'s'", b";", b"=", b"BY", b"JOIN", b"WHERE"]
+REPLACEMENTS = [b",", b")", b"(", b"FROM", b"SELECT", b"1", b"zz", b"'s'", b";", b"=", b"BY", b"JOIN", b"WHERE", b"GROUP\n BY", b"ORDER BY", b"LEFT  JOIN",
+                b"WITHIN GROUP BY", b"INNER\n\nJOIN"]
 
 
 def corruptions(rng, bs, offs, limit):
@@ -586,34 +621,63 @@ def coq_tables(rp, cases, tier):
     return bad
 
 
+def parse_case(r):
+    """Coq term of one parser-side case: tokenizer tokens (span + literal lengths of the parser tokens each expands to),
+    the implementation's position mapping, the cursor, the error location"""
+    pr = r["parse"]
+    groups = {}
+    for q, c in zip(pr["positions"], pr["conv"]):
+        groups.setdefault(q["oi"], []).append(len(c["lit"].encode()))
+    toks = []
+    for k, t in enumerate(r["tokens"]):
+        ws = groups.get(k, [])
+        toks.append("((%d%%N, %d%%N), (%d%%N, %d%%N), [%s])" % (t["sl"], t["sc"], t["el"], t["ec"], "; ".join("%d%%N" % w for w in ws)))
+    pos = ["(%d%%N, ((%d%%N, %d%%N), (%d%%N, %d%%N)))" % (q["oi"], q["sl"], q["sc"], q["el"], q["ec"]) for q in pr["positions"]]
+    return "([%s], [%s], %d%%N, (%d%%N, %d%%N))" % ("; ".join(toks), "; ".join(pos), pr["cursor"], pr["err"]["line"], pr["err"]["col"])
+
+
+def coq_parse_cases(rp, cases, tier, own="true"):
+    nsh = 2 if tier == "quick" else 8
+    bad = []
+    for si in range(nsh):
+        sh = cases[si::nsh]
+        if not sh:
+            continue
+        body = ("From Coq Require Import List NArith.\nFrom GV Require Import Model.Loc.\nImport ListNotations.\n"
+                "Definition cases : list (list ((N * N) * (N * N) * list N) * list (N * ((N * N) * (N * N))) * N * (N * N)) := [\n" +
+                ";\n".join(parse_case(r) for _, r in sh) + "].\n"
+                "Definition bad := Eval vm_compute in bad_idx (parse_case_ok %s) 0%%N cases.\nPrint bad.\n" % own)
+        ok, out, err = common.coq_cases("c05_pcases_%s_%d" % (own, si), body)
+        if not ok:
+            rp.violation({"kind": "correspondence", "broken": "Coq evaluation of the position mapping model on generated cases", "detail": err[-2000:]},
+                         "loc_pcases_coq", no_input=True)
+            return None
+        bad += [sh[i] for i in common.parse_nlist(out)]
+    return bad
+
+
 ZERO_LOC = re.compile(r"models\.Location\{\s*(Line:\s*0\s*,\s*Column:\s*0\s*)?\}")
 
 
 def scan_error_sites():
-    """every error constructed in the grammar functions of pkg/sql/parser must take its location from p.currentLocation();
-    returns the list of sites that pass a literal zero Location (file:line), excluding the entry points that have no
-    position mapping by construction"""
+    """every error constructed in the grammar functions of pkg/sql/parser (the unexported methods of *Parser) must take its
+    location from p.currentLocation(); returns all sites that pass a literal zero Location, flagged grammar / not
+    (exported entry points and package-level helpers run without a position mapping by construction)"""
     d = os.path.join(common.REPO, "pkg", "sql", "parser")
     sites, total_cur = [], 0
-    allowed = {("parser.go", "currentLocation"), }
     for fn in sorted(os.listdir(d)):
         if not fn.endswith(".go") or fn.endswith("_test.go") or fn.startswith("verif_hooks"):
             continue
-        func = ""
+        func, method = "", False
         for i, line in enumerate(open(os.path.join(d, fn), encoding="utf-8", errors="replace"), 1):
-            m = re.match(r"func (?:\([^)]*\) )?(\w+)", line)
+            m = re.match(r"func (\([^)]*\) )?(\w+)", line)
             if m:
-                func = m.group(1)
+                func, method = m.group(2), bool(m.group(1)) and "*Parser" in m.group(1)
             code = line.split("//")[0]
             total_cur += code.count("currentLocation()")
             if ZERO_LOC.search(code):
-                sites.append({"file": fn, "line": i, "func": func})
+                sites.append({"file": fn, "line": i, "func": func, "grammar": method and func[:1].islower() and func != "currentLocation"})
     return sites, total_cur
-
-
-# entry points that parse WITHOUT a position mapping (no location can exist) or the lookup itself
-NO_MAPPING_FUNCS = {"currentLocation", "Parse", "ParseContext", "ParseWithRecovery", "parseWithRecovery", "Validate", "ValidateBytes",
-                    "ParseBytes", "ParseBytesWithTokens", "ValidateTokens", "ParseMultiple"}
 
 
 def known_match(kf, kind, bs, detail):
@@ -663,7 +727,7 @@ def eval_input(bs, parse=False):
     fails, _ = token_oracle(bs, r)
     if parse:
         f2, _ = parse_oracle(bs, r, true_offsets(bs, r))
-        fails = fails + f2
+        fails = fails + f2 + split_mapping_failures(bs, r)
     return fails
 
 
@@ -822,6 +886,7 @@ def run(tier):
             continue
         pstats["rejected_by_parser"] += 1
         fails, info = parse_oracle(bs, r, true_offsets(bs, r))
+        fails = fails + split_mapping_failures(bs, r)
         if info:
             pstats["codes"][info["code"]] = pstats["codes"].get(info["code"], 0) + 1
             pstats["by_kind"][cmeta[i][0]] = pstats["by_kind"].get(cmeta[i][0], 0) + 1
@@ -834,9 +899,31 @@ def run(tier):
             pfail.setdefault(kind, []).append((i, detail))
     report_failures(rp, kf, pfail, corrupted, ["corruption"] * len(corrupted), parse=True)
 
+    # ---- model correspondence inside Coq: position mapping (split compound keywords) and the location lookup at the cursor
+    if ok_inst:
+        pcs = [(bs, r) for bs, r in zip(corrupted, rc) if r.get("parse") and not r["parse"]["err"]["nil"] and r["parse"]["err"].get("structured")
+               and not r["parse"].get("panic") and r["parse"]["positions"] and len(r["tokens"]) <= 120
+               and len(r["parse"]["positions"]) == len(r["parse"]["conv"])]
+        split_cases = [c for c in pcs if len(c[1]["parse"]["positions"]) > len(c[1]["tokens"])]
+        rest = [c for c in pcs if len(c[1]["parse"]["positions"]) == len(c[1]["tokens"])]
+        rng.shuffle(rest)
+        pcs = split_cases[:150 if quick else 1500] + rest[:150 if quick else 1500]
+        badp = coq_parse_cases(rp, pcs, tier)
+        if badp is not None:
+            rp.obligation("correspondence: Coq conv_positions/current_location = converter position mapping / error location at the parser cursor on %d rejected corruptions (%d with split compound keywords)"
+                          % (len(pcs), len([c for c in pcs if len(c[1]["parse"]["positions"]) > len(c[1]["tokens"])])), not badp)
+            rp.cov["parse_cases_validated_against_model"] = len(pcs)
+            for bs, r in badp[:3]:
+                f, _ = parse_oracle(bs, r, true_offsets(bs, r))
+                mapping_bad = split_mapping_failures(bs, r)
+                rp.violation({"kind": "oracle" if (f or mapping_bad) else "correspondence", "hex": bs.hex(), "text": bs.decode("utf-8", "replace"), "parse": True,
+                              "failures": f + mapping_bad, "cursor": r["parse"]["cursor"], "positions": r["parse"]["positions"],
+                              "explanation": "position mapping / error location of the tree differs from Model/Loc.v (conv_positions, current_location) on this input"},
+                             "pos_model_mismatch_%d" % len(rp.violations), no_input=not (f or mapping_bad))
+
     # ---- source scan: no grammar function builds an error with a literal zero Location
     sites, ncur = scan_error_sites()
-    bad_sites = [s for s in sites if s["func"] not in NO_MAPPING_FUNCS]
+    bad_sites = [s for s in sites if s["grammar"]]
     known_sites = [k for k in kf if k["status"] == "known" and k["signature"].get("kind") == "error_site"]
     unlisted = []
     for s in bad_sites:
@@ -893,6 +980,9 @@ def run(tier):
 
 
 PARSE_SPECIAL = [
+    "SELECT PERCENTILE_CONT(0.5) WITHIN GROUP\n   BY (ORDER BY a) FROM t",
+    "SELECT PERCENTILE_CONT(0.5) WITHIN GROUP BY",
+    "SELECT f(x) WITHIN\nGROUP\n\nBY\n(ORDER BY a) FROM t",
     "SELECT a\nFROM t\nGROUP\n  BY",
     "SELECT a FROM t ORDER\n\n BY ,",
     "SELECT *\n-- c\nFROM a LEFT\n JOIN",
@@ -964,7 +1054,7 @@ def replay(path):
         return 1 if f else 0
     if d.get("sites") is not None:
         sites, _ = scan_error_sites()
-        bad = [s for s in sites if s["func"] not in NO_MAPPING_FUNCS]
+        bad = [s for s in sites if s["grammar"]]
         print(json.dumps({"zero_location_sites": bad}))
         return 1 if bad else 0
     return 2
